@@ -22,6 +22,7 @@ type AbsGen struct {
 	Idx     uint64
 	Profile string
 	NoReap  bool // endpoints have no reap / prepared-query command
+	TxnKV   bool // transactions carry KV and session verbs only (the Txn endpoint pre-validates catalog verbs beyond the FSM)
 	NoSerf  bool // a running leader reaps nodes that carry a serfHealth check but are no serf members
 }
 
@@ -170,7 +171,11 @@ func (g *AbsGen) sessCmd() M {
 }
 
 func (g *AbsGen) txnOp() M {
-	switch g.R.Intn(12) {
+	k0 := g.R.Intn(12)
+	if g.TxnKV && k0 >= 1 && k0 <= 3 {
+		k0 = 5
+	}
+	switch k0 {
 	case 0:
 		live := []string{}
 		_, ss, _ := g.Store().SessionList(nil, nil)
